@@ -5,7 +5,12 @@ check("C04", "model_checking",
       "fn-typed parameter, of impure std) under nesting paths of length <= 3 over 12 placement elements (block, if / else branch, loop body and condition, "
       "case arm, nested fn / pu closure, blob method, call argument, if-expression, immediately-invoked pu), part C an impure function arriving in a "
       "`pu`-typed position (variable annotation, parameter, return, blob field, list / tuple element, assignment, push) directly, through aliases, "
-      "parameters and returned values. Each case denotes a planted program and one or two base programs differing only in the forbidden thing. TLC checks "
+      "parameters and returned values, part D (round 3) the constructs of part B crossed with the kind of value involved and the syntactic "
+      "position of the name / value: reads of a mutable global / outer local holding an int, list, blob, tuple, pure or impure function as alias, "
+      "argument, arrow-call receiver, tuple / list element, operand, receiver of a field read / pu-field call / list.get, index base and - for pure "
+      "functions - callee of `f(x)`, `f' x`, `x -> f()`, `x -> f'`, `f(f(x))`; `:=` / annotated declarations of 12 kinds of value including pu / fn "
+      "function literals and function names; assignments per value kind and target shape (variable, +=, field, function-typed field, tuple index); "
+      "calls of 8 impure callee shapes in the 4 call surfaces; all under nesting paths of length <= 2 (180 cells, 14 436 cases). Each case denotes a planted program and one or two base programs differing only in the forbidden thing. TLC checks "
       "the universe (every cell inhabited, planted # base, ids injective), emits the tier's share, and validates the recorded compile results: the trace "
       "must cover exactly the share, every base accepted, the planted program rejected. Bounded-exhaustive over that universe, not a proof.",
       "Trusted: TLC, SyltPurity as the reading of the property's clauses, the printer (guarded: >= 95 % of bases accepted overall, per part and per cell), "
